@@ -897,7 +897,7 @@ MATS3 = [
 ]
 MATS4 = [
     [[3.0, -1.0, 0.0, 0.0], [-1.0, 3.0, -1.0, 0.0], [0.0, -1.0, 3.0, -1.0], [0.0, 0.0, -1.0, 3.0]],     # 1x4 mesh
-    [[7.0, 6.0, 4.0, 8.0], [6.0, 12.0, 8.0, 6.0], [4.0, 8.0, 10.0, 11.0], [8.0, 6.0, 11.0, 19.0]],     # Z^T Z, correlated
+    [[7.0, 6.0, 3.0, 6.0], [6.0, 12.0, 6.0, 4.0], [3.0, 6.0, 7.0, 8.0], [6.0, 4.0, 8.0, 15.0]],        # Z^T Z of a 5x4 integer Z, correlated columns (smallest eigenvalue 0.126)
 ]
 
 BODIES = {"case_solver": body_solver, "case_unconstrained": body_unconstrained, "case_inversion": body_inversion}
@@ -917,6 +917,9 @@ ALL9 = list(range(9))
 def cases(tier):
     out = []
     thorough = tier != "quick"
+    for M in MATS2 + MATS3 + MATS4:       # the property quantifies over symmetric positive-definite matrices only
+        Mm = np.array(M)
+        assert np.array_equal(Mm, Mm.T) and np.linalg.eigvalsh(Mm).min() > 1e-2, "matrix list must be SPD: %r" % (M,)
     # --- the solver routine / its caller on concrete SPD matrices
     for A in MATS2:
         for mode in ("cold", "warm"):
